@@ -37,15 +37,33 @@ def replay(case):
     return False, f'session {code}: all clauses hold'
 
 
+ESCAPED = []
+
+
+def replay_escaped(case):
+    from pytezos.michelson.repl import Interpreter
+    it = Interpreter()
+    cells = case['cells']
+    for i, c in enumerate(cells):
+        try:
+            it.execute(c)
+        except Exception as e:   # noqa
+            if i == len(cells) - 1:
+                return True, f'cells {cells}: execute() raised {type(e).__name__}: {e}'
+            return False, f'an earlier cell raised: {e}'
+    return False, f'cells {cells}: no exception escapes execute()'
+
+
 def _ok_words(pool, max_len):
     """Breadth-first, level by level: all failure-free words up to max_len; succ[w] = cells that succeed after w."""
     succ = {}
     frontier = [()]
     levels = [[()]]
     for _ in range(max_len + 1):
-        res = pool.map(H.extend_ok, frontier, chunksize=max(1, len(frontier) // 256))
+        res = pool.map(H.extend_ok_escaped, frontier, chunksize=max(1, len(frontier) // 256))
         nxt = []
-        for w, ok in res:
+        for w, ok, esc in res:
+            ESCAPED.extend(esc)
             succ[w] = ok
             nxt.extend(w + (c,) for c in ok)
         frontier = nxt
@@ -144,6 +162,12 @@ def run(ck: Check) -> int:
                      case=dict(session=x['session'], fail_idx=x['fail_idx'], clause=x['clause'],
                                cells=[H.cell_code(s) for s in x['session']]),
                      replay='props.C22:replay', wclass=x['wclass'])
+    # a Michelson failure must be REPORTED by execute (debug off), never escape it — wherever it arises (parser, instruction, or the snapshot itself)
+    ck.obligation(OID + 'safety.michelson_failures_are_reported_not_raised', 'failed' if ESCAPED else 'discharged', kind='R', backend='enumeration')
+    for sess, exc in ESCAPED[:3]:
+        ck.violation(OID + 'safety.michelson_failures_are_reported_not_raised', f'cells {[H.cell_code(c) for c in sess]}: the last cell made execute() RAISE {exc[:160]}',
+                     case=dict(session=list(sess), fail_idx=[len(sess) - 1], clause='safety.michelson_failures_are_reported_not_raised',
+                               cells=[H.cell_code(c) for c in sess]), replay='props.C22:replay_escaped', wclass='escaped:' + H.cell_code(sess[-1])[:40])
     ck.extra['failure_classes'] = {f'{k[0]} / {k[1]}': v for k, v in sorted(n_fail.items())}
     ck.exhaustive = True
     return ck.finish('other',
